@@ -16,6 +16,8 @@ INNERS = {
     'letname': (('py', 'v'), []),            # binder outside the wrappers, use inside
     'letcount': (('rep', X, 'n', 'n'), []),   # data-dependent count bound outside the wrappers
     'choice-rules': (('choice', ('seq', ('ref', 'R'), ('str', 'y')), ('ref', 'R')), [('R', ('rule', None, X))]),
+    # an inner let that shadows a name bound outside the wrappers (the outer value is read again afterwards)
+    'shadowlet': (('let', 'v', X, ('py', 'v')), []),
 }
 WRAPPERS = {
     'seq': lambda e: ('seq', e),
@@ -51,6 +53,8 @@ def jobs(tier):
                     body = ('let', 'v', X, body)
                 elif iname == 'letcount':
                     body = ('let', 'n', ('apply', ('re', '\\d'), ('py', 'int')), body)
+                elif iname == 'shadowlet':
+                    body = ('let', 'v', ('re', 'y?'), ('seq', body, ('py', 'v')))
                 for ign in (False, True):
                     for named in ((False, True) if d % 3 == 0 or tier == 'thorough' else (False,)):
                         rules = [('start', ('rule', None, body))] + extra
@@ -59,11 +63,35 @@ def jobs(tier):
                             inputs = ['1x', '2xx', '0', '2x', '1xx', '', 'x']
                         elif iname == 'letname':
                             inputs = ['x', '', 'y', 'xx', 'x ']
+                        elif iname == 'shadowlet':
+                            inputs = ['x', 'yx', '', 'y', 'xx', 'yx ']
                         else:
                             inputs = ['x', '', 'y', 'xx', 'x ', ' x', 'xy', 'xx ']
                         yield {'mods': mods, 'inputs': inputs, 'mode': 'simple', 'named': named,
                                'tag': 'nest-%s-%s%s%s' % (iname, wname, '/ignore' if ign else '', '/named' if named else ''),
                                'time_limit': 2.0, 'depth': d}
+
+
+def chain_jobs(tier):
+    """a derived grammar overrides the rule referred to from the deep part (and adds an ignore of its own)"""
+    ds = (1, 8, 12, 14, 15, 16, 17, 18, 19, 20, 22, 25, 30, 40, 60) if tier == 'quick' else range(1, 70)
+    for iname in ('rule', 'seq-with-rule', 'choice-rules', 'class'):
+        inner, extra = INNERS[iname]
+        for wname in ('seq', 'right', 'mixed', 'opt'):
+            for d in ds:
+                body = wrap(inner, wname, d)
+                base = [('start', ('rule', None, body))] + extra
+                for dign in (False, True):
+                    if iname == 'class':
+                        der = [('K', ('class', None, [('k', False, ('str', 'y'))]))]
+                    else:
+                        der = [('R', ('rule', None, ('choice', ('str', 'y'), ('super', 'R'))))]
+                    der.append(('Zz', ('rule', None, ('str', 'z'))))
+                    mods = [(tuple(base), (), 'start', None, (), False, 'named', None),
+                            (tuple(der), ((('re', ' +'),) if dign else ()), 'start', None, (), False, 'named', None)]
+                    yield {'mods': mods, 'inputs': ['x', 'y', '', 'xy', 'xx', 'x ', 'y ', 'yy'], 'mode': 'simple', 'named': True,
+                           'entries': [(None, 0), (None, 1)], 'time_limit': 2.0,
+                           'tag': 'nest-chain-%s-%s%s' % (iname, wname, '/derived-ignore' if dign else '')}
 
 
 # --- deep recursion driven by the input ------------------------------------------------------
@@ -135,15 +163,15 @@ def dispatch(job):
 
 def run(tier, seed):
     chk = Check('C17', tier, seed)
-    chk.rule = ('9 inner expressions (string, regex, rule reference, template call, class, sequence with rule references, use of a let name, '
-                'data-dependent count, choice of rule references) x 6 wrapper kinds ([e], (e), Opt(e), "\\x00"|e, ""'
+    chk.rule = ('10 inner expressions (string, regex, rule reference, template call, class, sequence with rule references, use of a let name, '
+                'data-dependent count, choice of rule references, an inner let shadowing an outer name) x 6 wrapper kinds ([e], (e), Opt(e), "\\x00"|e, ""'
                 '>>e, mixed) x every nesting depth 1..60 plus 70..120 step 10 (thorough: every depth 1..130) x ignore off/on x unnamed/named, on the '
-                'accepted text and near-misses; oracle: reference model of the wrapped expression; plus input-driven rule recursion to '
+                'accepted text and near-misses; the rule-bearing inner kinds additionally in a base grammar extended by a grammar that overrides the rule (and adds an ignore) at 15 depths (thorough 1..69); oracle: reference model of the wrapped expression; plus input-driven rule recursion to '
                 'depth 10^3 and 10^4 (thorough 10^5) through a plain rule, template, class, mixfix row, class list and with ignore under the '
                 'default recursion limit; non-trivial = depth >= 18 (beyond the first block-budget threshold)')
     chk.assumptions = ['reference interpreter', 'memory cap 4 GB per worker']
     deep = [1000, 10000] if tier == 'quick' else [1000, 10000, 100000]
-    alljobs = [('deep', k, n) for n in deep for k in DEEP] + list(jobs(tier))
+    alljobs = [('deep', k, n) for n in deep for k in DEEP] + list(jobs(tier)) + list(chain_jobs(tier))
     alljobs.sort(key=lambda j: 0 if isinstance(j, tuple) else 1)
     chk.explore(dispatch, alljobs, chunk=2, job_deadline=300)
     # non-trivial count: cases at depth >= 18 are not tracked per case by e1; approximate from jobs
